@@ -17,6 +17,7 @@ ENV = {"ASAN_OPTIONS": "detect_leaks=0:abort_on_error=0:exitcode=99:allocator_ma
 ROOT = os.path.dirname(os.path.dirname(os.path.abspath(__file__)))
 WORK = os.path.join(ROOT, "build", "c16work")
 REPO = os.environ.get("VERIF_REPO", "/repo")
+DOT = b".".hex()   # the harness runs with the work directory as cwd: requests (and replays) carry no absolute path
 
 
 # ------------------------------------------------------------------ work directory (tiny WAVs, sample PCM)
@@ -80,7 +81,7 @@ def ctok(tokens):
 
 
 def hist(songs, fills=(0, 85, 255), seeds=(1, 2), mode=""):
-    return "hist D:%s F:%s P:%s %s%s" % (WORK.encode().hex(), ",".join(map(str, fills)), ",".join(map(str, seeds)),
+    return "hist D:%s F:%s P:%s %s%s" % (DOT, ",".join(map(str, fills)), ",".join(map(str, seeds)),
                                           (mode + " ") if mode else "", " ".join(songs))
 
 
@@ -128,7 +129,7 @@ def calibrate():
     exe = core.build_harness()
     workdir()
     params = [(f, p, 0) for f in range(80, 92) for p in (0, 4)] + [(f, 0, 0) for f in range(168, 178)]
-    reqs = ["hist1 D:%s %s" % (WORK.encode().hex(), mtok(s_straddle(*p))) for p in params]
+    reqs = ["hist1 D:%s %s" % (DOT, mtok(s_straddle(*p))) for p in params]
     ans, _ = core.run_harness(exe, reqs, 60, WORK)
     for p, a in zip(params, ans):
         print(p, a)
@@ -305,8 +306,8 @@ def cases(rng, tier):
         yield Case(hist([mtok(s) for s in samples], fills=(0, 170), seeds=(3,)), ("corpus", "sample", "history", "pcm"), "corpus")
         yield Case(hist([mtok(samples[0]), mtok(S_PCM_MIX), mtok(samples[-1])], fills=(0, 170), seeds=(3,), mode="V"), ("corpus", "sample", "history", "validated-first"), "corpus")
     # ---- D15 probe (MDSDRV_Linker::get_seq_data appends to data_offset)
-    yield Case("linktwice D:%s %s %s" % (WORK.encode().hex(), mtok(S_FM), mtok(S_PSG)), ("corpus", "linker"), "corpus")
-    yield Case("linktwice D:%s %s" % (WORK.encode().hex(), mtok(S_FM)), ("corpus", "linker"), "corpus")
+    yield Case("linktwice D:%s %s %s" % (DOT, mtok(S_FM), mtok(S_PSG)), ("corpus", "linker"), "corpus")
+    yield Case("linktwice D:%s %s" % (DOT, mtok(S_FM)), ("corpus", "linker"), "corpus")
     # ---- VGM log straddling the buffer growth steps (GD3 block lands in realloc'ed memory)
     for i, (fr, pad, title) in enumerate(STRADDLE if not quick else STRADDLE[::2]):
         yield Case(hist([mtok(s_straddle(fr, pad, title)), mtok(S_TINY)], fills=(0, 255), seeds=(1 + i,)), ("straddle", "pcm", "pcm-mix", "history"), "straddle")
@@ -349,7 +350,7 @@ def cases(rng, tier):
            "@30 pcm \"missing.wav\"\nF @30 c\n", "A l0 c\n", "A D30 c\n"]
     for i, b in enumerate(bad):
         others = [mtok(S_TINY), mtok(S_PCM_MIX)]
-        yield Case("hist D:%s F:0 P:1 %s M:%s %s" % (WORK.encode().hex(), others[0], b.encode("latin-1").hex(), others[1]), ("malformed", "history"), "malformed")
+        yield Case("hist D:%s F:0 P:1 %s M:%s %s" % (DOT, others[0], b.encode("latin-1").hex(), others[1]), ("malformed", "history"), "malformed")
 
 
 def normalize(x):
